@@ -553,11 +553,7 @@ def _immune(item):
     if file:
         lines = text.split('\n'); lines.insert(1, '[droop %s]' % ' '.join(file)); text = '\n'.join(lines)
     o = dict(cmd); o['rule'] = rule
-    try:
-        outcome, E, snaps = implrun.count_record(text, o)
-        other = implrun.canonical_line(E, snaps) if outcome == 'OK' else outcome
-    except Exception as e:
-        other = 'CRASH-INIT ' + type(e).__name__
+    other = implrun.count_line_text((text, o))
     return base, other
 
 
